@@ -206,6 +206,9 @@ class Parameter(ABC):
                 )
                 return False
 
+            # A stale report from the controller may have replaced the local
+            # values in the meantime; always request the value being set.
+            self._values.value = value
             await self.device.queue.put(await self.create_request())
             if not self.is_tracking_changes:
                 await self.force_refresh()
